@@ -36,6 +36,7 @@ from liquid2.exceptions import LiquidSyntaxError
 from liquid2.exceptions import LiquidTypeError
 from liquid2.exceptions import UnknownFilterError
 from liquid2.expression import Expression
+from liquid2.limits import int_literal
 from liquid2.limits import to_int
 from liquid2.unescape import unescape
 
@@ -661,7 +662,7 @@ def parse_primitive(env: Environment, token: TokenT) -> Expression:  # noqa: PLR
         return Path(token, [token.value])
 
     if is_token_type(token, TokenType.INT):
-        return IntegerLiteral(token, to_int(float(token.value)))
+        return IntegerLiteral(token, int_literal(token.value))
 
     if is_token_type(token, TokenType.FLOAT):
         return FloatLiteral(token, float(token.value))
@@ -1162,7 +1163,7 @@ def parse_boolean_primitive(  # noqa: PLR0912
         else:
             left = Path(token, [token.value])
     elif is_token_type(token, TokenType.INT):
-        left = IntegerLiteral(token, to_int(float(token.value)))
+        left = IntegerLiteral(token, int_literal(token.value))
     elif is_token_type(token, TokenType.FLOAT):
         left = FloatLiteral(token, float(token.value))
     elif is_token_type(token, TokenType.DOUBLE_QUOTE_STRING):
